@@ -9,7 +9,14 @@ equal to everything and futures (ConstFuture, computed and uncomputed tasks, unf
 After every operation the result, the number of items the underlying Python generator has yielded, whether it
 ran off its end and whether every await was resumed with the result of the awaited future are recorded.
 The Lean model (AsynqModel.Lib.Generator) replays the same history (correspondence) and the Lean observer
-`Generator.spec` (the statement of C17) judges the implementation's observations on their own."""
+`Generator.spec` (the statement of C17) judges the implementation's observations on their own.
+
+A small extra stream has bodies with a `Value(END_OF_GENERATOR)` item.  Such a body is OUTSIDE the statement of C17
+("returns all the Values" and "END_OF_GENERATOR never appears" contradict each other there - Lean:
+C17_marker_payload_unsatisfiable); the model has the item, so the code's behaviour there (the item is dropped, a
+manual consumer sees an END_OF_GENERATOR that does not end the generator, take_first overruns) is pinned by the
+correspondence, and the driver judges only the clauses that still make sense (no marker in a list, awaits resumed
+with the awaited result)."""
 import hashlib
 import itertools
 import json
@@ -19,17 +26,28 @@ PID = "C17"
 LEVEL = "proof"
 LEAN_MODULES = ["AsynqModel.Theorems.C17"]
 THEOREMS = [
+    # the property (hypothesis of the Value-delivery theorems: noMarker b = no Value(END_OF_GENERATOR) item in the body)
     "AsynqModel.Generator.C17_list",
     "AsynqModel.Generator.C17_take",
-    "AsynqModel.Generator.C17_take_zero",
+    "AsynqModel.Generator.C17_take_stops_at_value",
     "AsynqModel.Generator.C17_no_marker",
     "AsynqModel.Generator.C17_guard",
     "AsynqModel.Generator.C17_guard_started",
+    "AsynqModel.Generator.C17_reachable",
     "AsynqModel.Generator.C17_exhausted",
     "AsynqModel.Generator.C17_take_repeat",
+    "AsynqModel.Generator.C17_nested_loop",
     "AsynqModel.Generator.C17_nested",
     "AsynqModel.Generator.C17_spec_holds",
+    # why noMarker is a hypothesis (the statement is unsatisfiable without it) and what the code does there
+    "AsynqModel.Generator.C17_marker_payload_unsatisfiable",
+    "AsynqModel.Generator.C17_marker_payload_behaviour",
+    # adequacy of the model (the fuel of its structurally recursive loops is never used up - any state, any body)
+    "AsynqModel.Generator.C17_loops_within_fuel",
+    # holds by construction of the model (first branch of takeFirst); the content is the correspondence run
+    "AsynqModel.Generator.C17_take_zero",
 ]
+BY_CONSTRUCTION = ["AsynqModel.Generator.C17_take_zero"]
 BUILDS = {"quick": ["py"], "thorough": ["py", "cy"]}
 EXHAUSTIVE = {"quick": True, "thorough": True}
 RULE = ("every generator body over {await, Value} of length 0-6 (thorough: 0-8) x scripted histories (list; take n for "
@@ -39,8 +57,11 @@ RULE = ("every generator body over {await, Value} of length 0-6 (thorough: 0-8) 
         "task has started and is parked on an unflushed batch item) with awaits that are ConstFutures, async calls or "
         "items of a harness batch and Value payloads that are plain objects, None, objects equal to everything or futures "
         "(ConstFuture, computed task, uncomputed task, unflushed batch item), plus random bodies of length 7-30 with "
-        "random histories and 0-2 levels of nesting; non-trivial = body with at least one await and one Value and a "
-        "history of at least 2 operations; distinct by (body, await kinds, nesting, history) hash")
+        "random histories and 0-2 levels of nesting; plus (outside the statement, correspondence only) every body of "
+        "length 1-4 (thorough 1-5) over {await, Value, Value(END_OF_GENERATOR)} with at least one marker item under the "
+        "same scripted histories (nesting 0, and 1 up to length 3) and about 8% of the random bodies; non-trivial = "
+        "body with at least one await and one Value and a history of at least 2 operations; distinct by (body, await "
+        "kinds, nesting, history) hash")
 TRUSTED = [
     "hand-written Lean model AsynqModel.Lib.Generator tied to the code by this differential run only",
     "Python harness checks/c17.py (generator bodies built from step lists, token <-> object identity mapping, pull counter "
@@ -48,12 +69,18 @@ TRUSTED = [
     "CPython generator semantics (send / StopIteration), the asynq scheduler (C01-C05) computing the tasks",
 ]
 ASSUMPTIONS = [
+    "no Value payload is the END_OF_GENERATOR marker object itself (hypothesis `noMarker b` of C17_list, C17_take, "
+    "C17_take_stops_at_value, C17_take_repeat, C17_nested, C17_reachable, C17_spec_holds): for such a payload the "
+    "statement contradicts itself (C17_marker_payload_unsatisfiable); what the code does there is modelled "
+    "(Step.valueEnd, C17_marker_payload_behaviour) and compared with the code, but not judged as C17",
     "awaited futures succeed (a body whose awaited future raises is outside the statement)",
     "tasks of one generator are computed by the caller that obtained them; a second consumer only ever advances the "
     "generator as a sibling of the pending task in one yield (the scheduler, C03/C04, runs the pending task first and "
     "as far as it gets without flushing a batch); n >= 0 (the code treats n < 0 like 0)",
     "nested generators are outer generators that iterate the inner one as documented (for task in inner: v = yield task; "
-    "skip END_OF_GENERATOR; yield Value(v)); their effective body is Generator.wrap of the inner body",
+    "skip END_OF_GENERATOR; yield Value(v)); their effective body is Generator.wrap of the inner body (Lean: "
+    "C17_nested_loop proves that this loop, run over the model of the inner generator, yields exactly `wrap b`; that a "
+    "Python generator is characterised by the sequence of items it yields is part of the trusted CPython semantics)",
 ]
 UNKNOWN = 999999
 WILD = 50          # value tokens WILD..FUT-1 are objects whose __eq__ answers True to everything
@@ -69,13 +96,20 @@ def n_values(body):
     return sum(1 for s in body if s[0] == "v")
 
 
+def has_marker(body):
+    return any(s[0] == "e" for s in body)
+
+
 def mk_body(shape, rng, kind=None):
-    """shape: string over 'a'/'v' -> [["a", kind] | ["v", token]] with distinct value tokens"""
+    """shape: string over 'a'/'v'/'e' -> [["a", kind] | ["v", token] | ["e"]] with distinct value tokens;
+    ["e"] is `yield Value(END_OF_GENERATOR)` (outside the statement, see the module docstring)"""
     body = []
     t = 0
     for ch in shape:
         if ch == "a":
             body.append(["a", rng.randrange(4) if kind is None else kind])
+        elif ch == "e":
+            body.append(["e"])
         else:
             t += 1
             r = rng.random()
@@ -97,7 +131,7 @@ def manual_ops(body, extra=2):
     pos = 0
     while pos < len(body):
         ops.append(["next"])
-        if body[pos][0] == "v":
+        if body[pos][0] != "a":
             pos += 1
         else:
             pos += 1
@@ -195,6 +229,8 @@ def gen_case(rng, length=None):
     L = length if length is not None else rng.choice([1, 2, 3, 5, 7, 8, 10, 12, 16, 22, 30])
     p = rng.choice([0.2, 0.5, 0.5, 0.8])
     shape = "".join("a" if rng.random() < p else "v" for _ in range(L))
+    if rng.random() < 0.08:     # outside the statement: some Values carry the marker object itself
+        shape = "".join("e" if ch == "v" and rng.random() < 0.4 else ch for ch in shape)
     kind = rng.choice([None, None, 0, 2])
     body = mk_body(shape, rng, kind)
     nest = rng.choice([0, 0, 0, 1, 1, 2])
@@ -226,6 +262,15 @@ def plan(tier, seed):
                 cases += scripted(mk_body(shape, rng, None), rng, 1)
             if L <= 3:
                 cases += scripted(mk_body(shape, rng, None), rng, 2)
+    # outside the statement (correspondence only): bodies with a Value(END_OF_GENERATOR) item
+    for L in range(1, (4 if tier == "quick" else 5) + 1):
+        for shape in itertools.product("vae", repeat=L):
+            if "e" not in shape:
+                continue
+            shape = "".join(shape)
+            cases += scripted(mk_body(shape, rng, None), rng, 0)
+            if L <= 3:
+                cases += scripted(mk_body(shape, rng, None), rng, 1)
     n = 2500 if tier == "quick" else 40000
     cases += [gen_case(rng) for _ in range(n)]
     return cases
@@ -265,7 +310,8 @@ def neighbours(case, rng):
         if r < 0.3 and b:
             del b[rng.randrange(len(b))]
         elif r < 0.6:
-            b.insert(rng.randint(0, len(b)), rng.choice([["a", rng.randrange(4)], ["v", rng.randint(1, 9)], ["v", WILD + 1]]))
+            b.insert(rng.randint(0, len(b)), rng.choice([["a", rng.randrange(4)], ["v", rng.randint(1, 9)], ["v", WILD + 1]]
+                                                        + ([["e"]] if has_marker(body) else [])))
         elif o:
             o[rng.randrange(len(o))] = random_ops(rng, 1)[0]
         o.insert(rng.randint(0, len(o)), random_ops(rng, 1)[0])
@@ -274,6 +320,7 @@ def neighbours(case, rng):
 
 def signature(case, v):
     # the failing clause and the kind of operation it fails at, e.g. "fail:guard@take" or "fail:take-zero@take0"
+    # (for a body with a marker payload only "fail:end-marker" / "fail:await-result" are possible)
     return v["spec"]
 
 
@@ -384,6 +431,8 @@ def run_case(case):
                 got = yield f
                 if got is not expected:
                     bad[0] += 1
+            elif s[0] == "e":
+                yield Value(END_OF_GENERATOR)      # the payload is the marker object itself
             else:
                 yield Value(vals[s[1]])
         fin[0] = True
@@ -459,7 +508,8 @@ def run_case(case):
             r2 = "(raised %s)" % second[1]
         return "(item %s)" % tok(first), "(sib %d %s)" % (1 if info.get("kdone") else 0, r2)
 
-    bs = " ".join("(a %d)" % (1 if s[1] >= 2 else 0) if s[0] == "a" else "(v %d)" % s[1] for s in body)
+    bs = " ".join("(a %d)" % (1 if s[1] >= 2 else 0) if s[0] == "a" else ("(ve)" if s[0] == "e" else "(v %d)" % s[1])
+                  for s in body)
     lines = ["(case generator %d (body %s) (nest %d))" % (case["id"], bs, nest)]
     held = []
     guard_hits = 0
@@ -513,6 +563,8 @@ def run_case(case):
         feats.append("consecutive-awaits")
     if nv == 0:
         feats.append("no-values")
+    if has_marker(body):
+        feats.append("marker-payload(outside C17: correspondence only)")
     feats += sorted({"await-kind=%d" % s[1] for s in body if s[0] == "a"})
     if any(s[0] == "v" and WILD <= s[1] < FUT for s in body):
         feats.append("value-eq-everything")
